@@ -679,6 +679,7 @@ def drv_classify(case):
         arr0 = numpy.array(pts, dtype=numpy.int64)
         # the points in several integer dtypes; 0/1 points also as a bool array
         dts = [numpy.int64, numpy.int32, numpy.int8] if narrow is None else [narrow, narrow, numpy.int64]
+        if arr0.size and (arr0.min() < -128 or arr0.max() > 127): dts = [numpy.int64, numpy.int32]       # points that only wide types hold
         if arr0.size and arr0.min() >= 0 and arr0.max() <= 1: dts.append(numpy.bool_)
         arr = arr0.astype(dts[k % len(dts)])
         order = [("sat", Q.ineqs_satisfied), ("sep", Q.separable), ("rowsep", Q.ineq_separate_points)]
@@ -686,6 +687,16 @@ def drv_classify(case):
         res = {name: lst(fn(arr)) for name, fn in order}
         out.append({"op": "classify", "rows": qbase["rows"], "cols": qbase["cols"], "ndim": int(arr.ndim), "points": pts,
                     "sat": res["sat"], "sep": res["sep"], "rowsep": res["rowsep"], "dtype": str(arr.dtype)})
+    if case.get("k", 0) % 3 == 1 and base["cols"] and base["rows"]:
+        # other public operations on the same polyhedron first (their results are not used): it still answers for its own rows
+        cv = numpy.full(len(base["cols"]), numpy.nan)
+        j = next((j for j, c in enumerate(base["cols"]) if c["hi"] != 0 and any(r["a"][j] for r in base["rows"])), None)
+        if j is not None:
+            cv[j] = base["cols"][j]["hi"]
+            try:
+                P.reduce_columns(cv); P.reduce_rows(numpy.zeros(len(base["rows"])))
+            except Exception:
+                pass
     for k, pts in enumerate(case["points"]):
         classify(P, base, pts, k + case.get("k", 0))
     # polyhedra DERIVED from an already queried one (numpy views / arithmetic / edited copies) must answer for their own rows
@@ -734,6 +745,21 @@ def drv_bridge(case):
                     "fnvals": [[tok(k), v] for k, v in fn.items()], "res": r, "dtype": str(numpy.asarray(res).dtype)})
     out.append({"op": "partition", "vars": pv, "bool_idx": [proj.I(x) for x in numpy.asarray(arr.boolean_variable_indices).tolist()],
                 "int_idx": [proj.I(x) for x in numpy.asarray(arr.integer_variable_indices).tolist()]})
+    # the same two sets asked for with the plain-string / numpy-string spelling of the dtype (puan.Dtype is a str enum)
+    out.append({"op": "partition", "vars": pv, "bool_idx": [proj.I(x) for x in numpy.asarray(arr.variable_indices("bool")).tolist()],
+                "int_idx": [proj.I(x) for x in numpy.asarray(arr.variable_indices(numpy.str_("int"))).tolist()], "spelling": "str"})
+    # variables handed over as a numpy array, which the caller goes on using: the array keeps ITS variables
+    va = numpy.empty(len(vs), dtype=object)
+    for j, v in enumerate(vs): va[j] = v
+    arr2 = pnd.variable_ndarray(numpy.zeros((1, len(vs)), dtype=numpy.int64), variables=va)
+    arr3 = pnd.variable_ndarray(numpy.zeros((1, len(vs)), dtype=numpy.int64), variables=arr2.variables)
+    va[0] = puan.variable("other", (-7, 7))
+    arr3.variables[-1] = puan.variable("other2", (3, 9))
+    out.append({"op": "partition", "vars": pv, "bool_idx": [proj.I(x) for x in numpy.asarray(arr2.boolean_variable_indices).tolist()],
+                "int_idx": [proj.I(x) for x in numpy.asarray(arr2.integer_variable_indices).tolist()], "spelling": "shared_array"})
+    res2 = arr2.construct(dict(d))
+    out.append({"op": "construct", "vars": pv, "dict": [[tok(k), proj.I(v)] for k, v in d.items()], "kind": "lower", "fnvals": [],
+                "res": [[0, proj.I(x)] for x in numpy.asarray(res2).tolist()], "dtype": str(numpy.asarray(res2).dtype), "shared_array": True})
     ctx = [v.id for v in vs]
     lst = [_real_id(x) for x in case["list"]]
     lsts = [lst, list(reversed(lst)), lst[:1]]
@@ -798,7 +824,8 @@ def drv_compress(case):
     axis = {"2d0": 0, "2d1": 1, "flat": None, "3d0": 0}[kind]
     runs = []
     big = bool(numpy.abs(numpy.asarray(x, dtype=object)).max() >= 2 ** 31) if numpy.asarray(x).size else False
-    for m in METHODS:
+    rot = (len(json.dumps(x)) + len(kind)) % len(METHODS)          # the same array object serves all methods, in a rotating order
+    for m in METHODS[rot:] + METHODS[:rot]:
         if big and m not in ("prio", "rank", "shadow"):
             continue                      # these return input values, which TLC (32-bit integers) cannot hold
         r = arr.ndint_compress(method=m, axis=axis) if axis is not None else arr.ndint_compress(method=m)
